@@ -5,12 +5,15 @@ CONSTANTS MaxDepth
 A == <<"a">>
 AB == <<"a", "b">>
 Base(mod, verb) == [pfx |-> "localhost", local |-> TRUE, inface |-> 700, mod |-> mod, verb |-> verb, hasParams |-> TRUE, hasName |-> TRUE, name |-> A,
-                    faceId |-> -1, cost |-> -1, origin |-> -1, flags |-> -1, strat |-> "", stratName |-> "", capacity |-> -1, mtu |-> -1, flagsMask |-> "none"]
+                    faceId |-> -1, cost |-> -1, origin |-> -1, flags |-> -1, strat |-> "", stratName |-> "", capacity |-> -1, mtu |-> -1, flagsMask |-> "none", exp |-> -1, create |-> ""]
 \* how the command arrives: prefix x scope of the arrival face
 Entries == {<<"localhost", TRUE>>, <<"localhost", FALSE>>, <<"localhop", TRUE>>, <<"localhop", FALSE>>, <<"other", TRUE>>}
 Via(c, e) == [c EXCEPT !.pfx = e[1], !.local = e[2]]
-Rib == { [Base("rib", v) EXCEPT !.name = n, !.faceId = f, !.cost = k, !.flags = g, !.hasParams = hp, !.hasName = hn] :
-           v \in {"register", "unregister", "bogus"}, n \in {A, AB}, f \in {-1, 800, 9999}, k \in {-1, 5}, g \in {-1, 0}, hp \in BOOLEAN, hn \in BOOLEAN }
+Rib == { [Base("rib", v) EXCEPT !.name = n, !.faceId = f, !.cost = k, !.flags = g, !.hasParams = hp, !.hasName = hn, !.exp = x] :
+           v \in {"register", "unregister", "bogus"}, n \in {A, AB}, f \in {-1, 800, 9999}, k \in {-1, 5}, g \in {-1, 0}, hp \in BOOLEAN, hn \in BOOLEAN,
+           x \in {-1} }
+       \cup { [Base("rib", "register") EXCEPT !.name = n, !.faceId = f, !.exp = 3000] : n \in {A, AB}, f \in {-1, 800} }
+       \cup { [Base("rib", "announce") EXCEPT !.hasParams = hp] : hp \in BOOLEAN }
 Fib == { [Base("fib", v) EXCEPT !.name = n, !.faceId = f, !.cost = k, !.hasParams = hp] :
            v \in {"add-nexthop", "remove-nexthop"}, n \in {A, AB}, f \in {-1, 800, 9999}, k \in {-1, 5}, hp \in BOOLEAN }
 Str == { [Base("strategy-choice", v) EXCEPT !.name = n, !.strat = s, !.stratName = IF s = "ok" THEN "multicast" ELSE "", !.hasName = hn] :
@@ -18,14 +21,23 @@ Str == { [Base("strategy-choice", v) EXCEPT !.name = n, !.strat = s, !.stratName
 Cs == { [Base("cs", "config") EXCEPT !.hasName = FALSE, !.capacity = k, !.hasParams = hp, !.flagsMask = fm] : k \in {-1, 5, -2}, hp \in BOOLEAN, fm \in {"none", "both", "flags"} }
 Fac == { [Base("faces", v) EXCEPT !.hasName = FALSE, !.faceId = f, !.mtu = m, !.flagsMask = fm] :
            v \in {"update", "destroy"}, f \in {-1, 800, 9999}, m \in {-1, 0, 100, 1500}, fm \in {"none", "both", "flags"} }
+Cre == { [Base("faces", "create") EXCEPT !.hasName = FALSE, !.create = k, !.hasParams = hp] :
+           k \in {"nouri", "smallmtu", "baduri", "flagsonly", "conflict", "multicast", "ondemand", "scheme"}, hp \in {TRUE} }
 Short == { [Base(m, "") EXCEPT !.hasParams = FALSE, !.hasName = FALSE] : m \in {"", "rib", "faces"} }
-Cmds == { Via(c, e) : c \in Rib \cup Fib \cup Str \cup Cs \cup Fac \cup Short, e \in Entries }
+Cmds == { Via(c, e) : c \in Rib \cup Fib \cup Str \cup Cs \cup Fac \cup Cre \cup Short, e \in Entries }
 Init == routes = {} /\ nh = Empty /\ st = (<<>> :> "best-route") /\ cap = 1024 /\ faces = (700 :> 8800 @@ 800 :> 1500) /\ lh \in BOOLEAN
+        /\ fattr = (700 :> [scope |-> 1, schemes |-> {"unix", "fd"}, uri |-> "fd://7", luri |-> "unix:///run/nfd.sock"]
+                     @@ 800 :> [scope |-> 0, schemes |-> {"udp4"}, uri |-> "udp4://10.0.0.2:6363", luri |-> "udp4://10.0.0.1:6363"])
         /\ ev = [c |-> [pfx |-> "none", local |-> FALSE, mod |-> "", verb |-> ""], accepted |-> FALSE]
 Next == \E c \in Cmds : Command(c, Accepts(c))
 Spec == Init /\ [][Next]_vars
 Constr == TLCGet("level") <= MaxDepth
-View == <<routes, nh, st, cap, faces, lh>>
+View == <<routes, nh, st, cap, faces, fattr, lh>>
+\* a query names nothing that is gone: the answer to every filter lies within the face table, and the unfiltered query is the face table
+Queries == { [faceId |-> f, scheme |-> s, scope |-> sc, uri |-> "", luri |-> ""] : f \in {-1, 700, 800, 9999}, s \in {"", "udp4", "fd"}, sc \in {-1, 0, 1} }
+QuerySane == /\ \A q \in Queries : QueryAnswer(q) \subseteq DOMAIN faces
+             /\ QueryAnswer([faceId |-> -1, scheme |-> "", scope |-> -1, uri |-> "", luri |-> ""]) = DOMAIN faces
+AttrsOfLiveFaces == DOMAIN fattr = DOMAIN faces
 RootStrategy == <<>> \in DOMAIN st
 RoutesOnExistingFaces == \A r \in routes : r.face \in DOMAIN faces
 MtuSane == \A f \in DOMAIN faces : faces[f] >= 1
